@@ -36,43 +36,12 @@ func VXDispatch(c gocoro.Coroutine[*t_aio.Submission, *t_aio.Completion, any], r
 	// System.AddOnRequest's wrapper
 	util.Assert(r.Tags != nil, "request tags must be non nil")
 	util.Assert(r.Tags["id"] != "", "id tag must be set")
-	switch r.Kind {
-	case t_api.ReadPromise:
-		return ReadPromise(c, r)
-	case t_api.SearchPromises:
-		return SearchPromises(c, r)
-	case t_api.CreatePromise:
-		return CreatePromise(c, r)
-	case t_api.CreatePromiseAndTask:
-		return CreatePromiseAndTask(c, r)
-	case t_api.CompletePromise:
-		return CompletePromise(c, r)
-	case t_api.CreateCallback:
-		return CreateCallback(c, r)
-	case t_api.CreateSubscription:
-		return CreateSubscription(c, r)
-	case t_api.ReadSchedule:
-		return ReadSchedule(c, r)
-	case t_api.SearchSchedules:
-		return SearchSchedules(c, r)
-	case t_api.CreateSchedule:
-		return CreateSchedule(c, r)
-	case t_api.DeleteSchedule:
-		return DeleteSchedule(c, r)
-	case t_api.AcquireLock:
-		return AcquireLock(c, r)
-	case t_api.ReleaseLock:
-		return ReleaseLock(c, r)
-	case t_api.HeartbeatLocks:
-		return HeartbeatLocks(c, r)
-	case t_api.ClaimTask:
-		return ClaimTask(c, r)
-	case t_api.CompleteTask:
-		return CompleteTask(c, r)
-	case t_api.HeartbeatTasks:
-		return HeartbeatTasks(c, r)
-	case t_api.Echo:
-		return Echo(c, r)
+	// the coroutine cmd/serve registers for this kind (read from the real registration block)
+	if f, ok := vx.ServeRegistered(int(r.Kind)).(func(gocoro.Coroutine[*t_aio.Submission, *t_aio.Completion, any], *t_api.Request) (*t_api.Response, error)); ok {
+		return f(c, r)
+	}
+	if r.Kind == t_api.Echo {
+		return Echo(c, r) // only registered by the DST command
 	}
 	panic("no registered coroutine for request kind")
 }
